@@ -182,9 +182,9 @@ def _make_grid(sc):
         L, R = sc["L"], sc["R"]
         axis = np.array([float(k) for k in range(-L, R + 1)])
         return GS.CTMCGrid(h=1.0, origin_coordinate=L, axes=[axis])
-    n = sc["n"]
-    axis = np.array([float(k) for k in range(-n, n + 1)])
-    return GS.CTMCGrid(h=1.0, origin_coordinate=n, axes=[axis.copy() for _ in range(sc["dim"])])
+    L, R = (sc["n"], sc["n"]) if sc.get("n") is not None else (sc["L"], sc["R"])
+    axis = np.array([float(k) for k in range(-L, R + 1)])
+    return GS.CTMCGrid(h=1.0, origin_coordinate=L, axes=[axis.copy() for _ in range(sc["dim"])])
 
 
 def _make_manager(sc):
@@ -218,8 +218,8 @@ def replay_states(sc):
     if sc["dim"] == 1:
         want = {(k,) for k in range(-sc["L"], sc["R"] + 1) if k != 0}
     else:
-        n = sc["n"]
-        want = {t for t in itertools.product(range(-n, n + 1), repeat=sc["dim"]) if any(t)}
+        L, R = (sc["n"], sc["n"]) if sc.get("n") is not None else (sc["L"], sc["R"])
+        want = {t for t in itertools.product(range(-L, R + 1), repeat=sc["dim"]) if any(t)}
     got = [tuple(int(v) for v in s) for s in seen]
     missing = sorted(want - set(got))
     dup = len(got) - len(set(got))
@@ -390,7 +390,8 @@ def h_states(ctx, dim, L=None, R=None, n=None):
         ctx.assume(s[0] != 0)
         idx = pairing.pair(s[0])
     else:
-        s = tuple(ctx.int(f"s{i}", -n, n) for i in range(dim))
+        lo, hi = (-n, n) if n is not None else (-L, R)
+        s = tuple(ctx.int(f"s{i}", lo, hi) for i in range(dim))
         ctx.assume(OR(*[v != 0 for v in s]))
         idx = pairing.pair(s)
     # completeness: asking for the index of an admissible state returns that state, not exhaustion
@@ -416,10 +417,11 @@ def h_states(ctx, dim, L=None, R=None, n=None):
         ctx.prove("C14.states.returns_state_of_index", eq_tuple(st_t, s), replay=rp)
 
 
-def h_states_sound(ctx, dim, n):
+def h_states_sound(ctx, dim, n=None, L=None, R=None):
     """soundness: for a symbolic index x, a non-exhausted answer is an in-grid non-origin state whose index is >= x
     and no admissible state has an index in [x, returned index)"""
-    sc = {"dim": dim, "L": None, "R": None, "n": n}
+    sc = {"dim": dim, "L": L, "R": R, "n": n}
+    lo, hi = (-n, n) if n is not None else (-L, R)
     grid, pairing, sm = _make_manager(sc)
     rp = (replay_states, lambda m: sc)
     x = ctx.int("x", 0, sm.max_frontier_indices + 2)
@@ -427,10 +429,10 @@ def h_states_sound(ctx, dim, n):
     if brk:
         return
     st = tuple(st)
-    ctx.prove("C14.states.in_grid_non_origin", AND(*[AND(v >= -n, v <= n) for v in st], OR(*[v != 0 for v in st])), replay=rp)
+    ctx.prove("C14.states.in_grid_non_origin", AND(*[AND(v >= lo, v <= hi) for v in st], OR(*[v != 0 for v in st])), replay=rp)
     j = pairing.pair(st)
     ctx.prove("C14.states.index_ge_request", AND(j >= x, EQ(j, sm._last_projected_index)), replay=rp)
-    t = tuple(ctx.int(f"t{i}", -n, n) for i in range(dim))
+    t = tuple(ctx.int(f"t{i}", lo, hi) for i in range(dim))
     ctx.assume(OR(*[v != 0 for v in t]))
     jt = pairing.pair(t)
     ctx.prove("C14.states.no_admissible_state_skipped", NOT(AND(jt >= x, jt < j)), replay=rp)
@@ -566,6 +568,9 @@ def harnesses(tier):
         hs.append(Harness(f"states1d.{L}.{R}", h_states, {"dim": 1, "L": L, "R": R}))
     hs.append(Harness("states2d.1", h_states, {"dim": 2, "n": 1}, max_paths=3000))
     hs.append(Harness("states2d.sound.1", h_states_sound, {"dim": 2, "n": 1}, max_paths=3000))
+    for L, R in ([(1, 2), (2, 1)] if q else [(1, 2), (2, 1), (1, 3), (3, 1), (2, 3)]):  # more states on one side of the origin than on the other
+        hs.append(Harness(f"states2d.{L}.{R}", h_states, {"dim": 2, "L": L, "R": R}, max_paths=6000))
+        hs.append(Harness(f"states2d.sound.{L}.{R}", h_states_sound, {"dim": 2, "L": L, "R": R}, max_paths=6000))
     if not q:
         hs.append(Harness("states2d.2", h_states, {"dim": 2, "n": 2}, max_paths=6000))
         hs.append(Harness("states2d.sound.2", h_states_sound, {"dim": 2, "n": 2}, max_paths=6000))
